@@ -1,3 +1,5 @@
+//go:build verif_all || verif_db
+
 package main
 
 // Shared helpers: flow specs on the wire, writing them through the real DBWriter, querying and
